@@ -91,10 +91,13 @@ class Effect:
 
 
 class Evaluator:
-    def __init__(self, prog, inline=None, max_depth=6):
+    def __init__(self, prog, inline=None, max_depth=6, names=True):
+        """names=False: integer constants carry no definition path (`FOO` and the literal it equals are the same term) — for the circuit
+        rules, which compare structure and values; the policy rules that ask "is it the shared constant" keep names=True"""
         self.prog = prog
         self.inline = inline or (lambda path: False)
         self.max_depth = max_depth
+        self.names = names
         self.site_loc = {}
         self.site_effect = {}
 
@@ -429,7 +432,7 @@ class Frame:
             k = op["k"]
             if "v" in k:
                 v = int(k["sv"]) if "sv" in k else int(k["v"])
-                return ("c", v, k.get("def"))
+                return ("c", v, k.get("def") if self.ev.names else None)
             if "s" in k:
                 return ("cs", k["s"])
             if "fn" in k:
@@ -467,7 +470,13 @@ class Frame:
         if k == "discr":
             return ("discr", self.place_term(rv["p"]))
         if k == "repeat":
-            return ("repeat", self.operand_term(rv["a"]), rv["n"])
+            a = self.operand_term(rv["a"])
+            n = rv["n"]
+            if isinstance(n, str) and n.isdigit():
+                n = int(n)
+            if isinstance(n, int) and 0 < n <= 4:
+                return ("array", (a,) * n)   # `[x; 4]` is `[x, x, x, x]` (digest-sized literals; longer fills stay `repeat`)
+            return ("repeat", a, n)
         if k == "agg":
             ak = rv["ak"]
             ops = tuple(self.operand_term(o) for o in rv["ops"])
